@@ -29,7 +29,7 @@ type c17Case struct {
 	Methods  string   `json:"methods"`  // default | string | list
 	Headers  string   `json:"allowed_headers"` // none | string | list
 	Sessions int      `json:"sessions"`
-	Steps    []string `json:"steps"` // per session after handshake: poll | post | preflight | badpoll
+	Steps    []string `json:"steps"` // per session after handshake: poll | bigpoll (compressible, Accept-Encoding) | post | preflight
 	Origins  []string `json:"origins"`
 	JSONP    bool     `json:"jsonp"`
 	Seed     string   `json:"seed"`
@@ -51,7 +51,7 @@ func genC17(rng *rand.Rand) c17Case {
 	}
 	n := 2 + rng.IntN(6)
 	for i := 0; i < n; i++ {
-		c.Steps = append(c.Steps, []string{"poll", "poll", "post", "post", "preflight"}[rng.IntN(5)])
+		c.Steps = append(c.Steps, []string{"poll", "poll", "post", "post", "preflight", "bigpoll"}[rng.IntN(6)])
 		c.Origins = append(c.Origins, c17Origins[rng.IntN(len(c17Origins))])
 	}
 	return c
@@ -276,9 +276,20 @@ func runC17(c c17Case, r *rep.Report) (key, msg string, stats map[string]int64) 
 					}
 					cl.Cfg.Header = h
 					switch step {
-					case "poll":
-						w.SocketByID(sid).Send(types.NewStringBufferString("x"), nil, nil)
+					case "poll", "bigpoll":
+						cl.Cfg.AcceptEnc = ""
+						if step == "bigpoll" {
+							// a response large enough to be compressed, fetched by a client that accepts a coding
+							w.SocketByID(sid).Send(types.NewStringBufferString(strings.Repeat("compress me ", 200)), nil, nil)
+							cl.Cfg.AcceptEnc = []string{"gzip", "deflate", "br", "zstd"}[i%4]
+							stats["polls_with_accept_encoding"]++
+						} else {
+							w.SocketByID(sid).Send(types.NewStringBufferString("x"), nil, nil)
+						}
 						_, res, err := cl.PollOnce()
+						if step == "bigpoll" && res.Header.Get("Content-Encoding") != "" {
+							stats["compressed_poll_responses_checked"]++
+						}
 						if err != nil {
 							key, msg = "c17-poll-failed", err.Error()
 							return
